@@ -44,7 +44,7 @@ Print Assumptions C12_tables.
 Example C12_examples :
   let w := w_put_node (init_world true) (mk_node 1 17 (lit "2.0") [] [] 0 0 false true) in
   snd (fst (send_op w [] (mk_msg 1 0 0 0 0 []) true)) = Raise (EUnsupported (mk_msg 1 0 0 0 0 []) (lit "1.4"))
-  /\ snd (send_op w [] (mk_msg 2 0 1 0 2 (lit "x")) true) = [{| we_line := lit "2;0;1;0;2;x" ++ [10%N]; we_ok := true |}]
+  /\ snd (send_op w [] (mk_msg 2 0 1 0 2 (lit "x")) true) = [{| we_line := lit "2;0;1;0;2;x" ++ [10%N]; we_ok := true; we_msg := mk_msg 2 0 1 0 2 (lit "x") |}]
   /\ snd (send_op w [] (mk_msg 1 0 1 0 2 (lit "x")) true) = []
   /\ snd (fst (send_op w [true] (mk_msg 1 0 1 0 2 (lit "x")) false)) = Raise ETransport.
 Proof. vm_compute. repeat split. Qed.
